@@ -33,8 +33,8 @@ pub fn run(cfg: &Cfg) -> RunStat {
   let gen_ = hist::begin();
   hist::push(json!({"k":"new","kf":cfg.kf,"threads":cfg.threads,"keys":cfg.keys}));
   let strat = match cfg.strategy.as_str() {
-    "pct" => Strategy::Pct { d: 3, k: 500 },
-    "pct5" => Strategy::Pct { d: 5, k: 900 },
+    "pct" => Strategy::Pct { d: 3, k: 150 },
+    "pct5" => Strategy::Pct { d: 5, k: 250 },
     _ => Strategy::Random { p: 0.3 },
   };
   let ctl = Ctl::with_spares(cfg.threads, 16, cfg.seed ^ 0x7f4a7c15, strat);
